@@ -1,10 +1,12 @@
 #!/bin/sh
 # final_seed_sweep.sh : re-verify EVERY stored seeded change against the current main and /repo HEAD, in scratch mode,
 # spread over three worktrees of this repository (each with its own Coq build), and copy the meta.json files back.
-# Usage: sh tools/final_seed_sweep.sh   (from /verif; takes about an hour on 16 cores)
+# Usage: sh tools/final_seed_sweep.sh [C08 C13 ...]  (from /verif; all properties by default: about 2 h on 16 cores)
 cd "$(dirname "$0")/.."
 V=$(pwd)
 WTS="/work/sweep /work/clean /work/sw3"
+PROPS="$*"
+[ -z "$PROPS" ] && PROPS="C01 C02 C03 C04 C05 C06 C07 C08 C09 C10 C11 C12 C13 C14 C15 C16 C17 C18 C19 C20"
 i=0
 for wt in $WTS; do
   if [ ! -d $wt ]; then git worktree add --detach $wt HEAD -f >/dev/null 2>&1; fi
@@ -16,7 +18,7 @@ for wt in $WTS; do
   ( cd $wt
     rm -f build/seed_sweep.log
     k=0
-    for p in C01 C02 C03 C04 C05 C06 C07 C08 C09 C10 C11 C12 C13 C14 C15 C16 C17 C18 C19 C20; do
+    for p in $PROPS; do
       k=$((k+1))
       if [ $(( (k % 3) + 1 )) -ne $n ]; then continue; fi
       ids=$(ls seeded | grep "^$p-")
